@@ -103,10 +103,13 @@ def make_inputs_crowded(rng, supplies=None):
     for b in ("up", "down", "side", "same"):
         for _ in range(supplies[b] if supplies else rng.choice([0, 1, 2, 3, 5, 8])):
             t = mk[b]()
-            if rng.random() < 0.25:
+            if rng.random() < 0.5:
+                # 1-3 ambiguous sites at columns where the target carries no SNP: the same distance, another ambiguity count
+                # (the second key of the ranking, also inside a bin that is already full)
                 t = list(t)
-                j = rng.choice(free)
-                t[j] = rng.choice("N-RY")
+                plain = [j for j in free if t[j] == ref[j]] or free
+                for j in rng.sample(plain, min(len(plain), rng.randint(1, 3))):
+                    t[j] = rng.choice("NN-RY")
                 t = "".join(t)
             targets.append(t)
     if not targets:
